@@ -339,7 +339,7 @@ def guarded(fn, what):
     return box.get("v")
 
 
-def _alarm(seconds=900):
+def _alarm(seconds=1800):
     """Backstop: a child that hangs nevertheless is killed (the parent then reports a machinery failure)."""
     import signal
     signal.alarm(seconds)
@@ -554,8 +554,12 @@ def judge(obs, expected):
     mix = obs["mix"]
     kinds = kinds_of(mix)
     if obs.get("deadlock"):
-        out.append(({"class": "deadlock", "kinds": kinds, "locks": sorted(set(obs["deadlock"]["blocked"].values()), key=str)},
-                    f"deadlock: threads blocked on locks {obs['deadlock']['blocked']} (owners {obs['deadlock']['owners']})"))
+        dl = obs["deadlock"]
+        lids = {x for x in dl.get("blocked", {}).values() if x} | {x for xs in dl.get("owners", {}).values() for x in xs}
+        sites = sorted({"%s:%d" % sched.LOCKS[x - 1].site for x in lids if 0 < x <= len(sched.LOCKS)})
+        out.append(({"class": "deadlock", "kinds": kinds, "locks": sites},
+                    f"deadlock: threads blocked on locks {dl.get('blocked')} (owners {dl.get('owners')}, locks created at {sites})"
+                    + (f" during {dl['during']}" if dl.get("during") else "")))
         return out
     if obs.get("aborted"):
         out.append(({"class": "harness_abort", "kinds": kinds}, obs["aborted"]))
@@ -951,9 +955,8 @@ def _run(rep, tier, seed, B, rng, lb, pool, d):
     tlc.sany("trace/ThreadsTrace.tla")
     # ------------------------------------------------------------------ R1: TLC (in the background)
     jobs = _tlc_jobs(d, tier)
-    ex = ThreadPoolExecutor(6)
-    futs = [(label, expect, ex.submit(tlc.run_tlc, "Threads.tla", path, **kw)) for label, path, kw, expect in jobs]
-    # (the invariants are model-checked above; the simulated behaviours are judged on the real code)
+    ex = ThreadPoolExecutor(8)
+    # simulations first (B2 waits for them); their invariants are model-checked by the exhaustive runs below
     simcfg2 = write_file(d, "sim2.cfg", cfg_text(2, 2, OPS, invs=["LockSane"]))
     simcfg2w = write_file(d, "sim2w.cfg", cfg_text(2, 2, OPS, warm=True, invs=["LockSane"]))
     simcfg3 = write_file(d, "sim3.cfg", cfg_text(3, 2, OPS, warm=True, invs=["LockSane"]))
@@ -962,6 +965,7 @@ def _run(rep, tier, seed, B, rng, lb, pool, d):
     sims = [("simulate 2x2 all kinds (cold pools)", False, ex.submit(tlc.simulate, "Threads.tla", simcfg2, B["sim"], 150, seed)),
             ("simulate 2x2 all kinds (warm pools)", True, ex.submit(tlc.simulate, "Threads.tla", simcfg2w, B["sim"], 150, seed + 1)),
             ("simulate 3x2 all kinds (warm pools)", True, ex.submit(tlc.simulate, "Threads.tla", simcfg3, B["sim3"], 220, seed + 2))]
+    futs = [(label, expect, ex.submit(tlc.run_tlc, "Threads.tla", path, **kw)) for label, path, kw, expect in jobs]
     # ------------------------------------------------------------------ mixes and their sequential outcomes
     mixes = list(MIX2) + list(MIX3)
     for _ in range(B["extra2"]):
@@ -977,11 +981,20 @@ def _run(rep, tier, seed, B, rng, lb, pool, d):
         seqjobs = keep + rng.sample(rest, min(len(rest), 1500 - len(keep)))
     seqres = pool.map(seq_child, seqjobs)
     real_seq = {}
+    seq_broken = set()
     for j, r in zip(seqjobs, seqres):
+        if r["outcome"] == "deadlock":        # not even one thread alone gets through
+            seq_broken.add(j["mi"])
+            rep.violation({"class": "deadlock", "kinds": kinds_of(mixes[j["mi"]]), "sequential": True},
+                          f"the operations of {mixes[j['mi']]} run one after the other by a single thread deadlock: {r['deadlock']}",
+                          {"mix": [list(p) for p in mixes[j["mi"]]], "policy": {"kind": "pre", "first": 1, "pre": []}, "gran": "line"})
+            continue
         real_seq.setdefault(j["mi"], set()).add(r["outcome"])
         if r["dup"] or r["warn_changed"]:
             rep.machinery(f"sequential reference itself misbehaves: {j} -> {r}")
     for mi, outs in real_seq.items():
+        if mi in seq_broken:
+            continue
         full = len([j for j in seqjobs if j["mi"] == mi]) == len(orders_of(mixes[mi]))
         if not outs <= expected[mi] or (full and outs != expected[mi]):
             rep.machinery(f"the sequential semantics of Threads.tla (SeqApply) and the real code disagree on mix {mixes[mi]}: "
